@@ -25,6 +25,7 @@ META["technique"] = "static analysis: dominance / provenance / typestate rules o
 META["explanation"] += " R15.5 a Reset emitted by the Head / Tail translators is cut to the limit (truncate / take / local cutting helper with a limit-dependent argument, or skip relative to the skipped vector's own length; a skip position computed from the previous length in a length-changing arm is a violation)."
 META["explanation"] += " R15.6 (balance.py, the same abstract interpretation as R09.12): after every emitted diff of every path of every arm the running length of the consumer's view is at most L in every feasible case; where it decides an arm, the syntactic R15.1 is subordinate to it. R09.14 (no untranslated forward of a source item) is evaluated here as well."
 META["explanation"] += ' R15.7 the local helper Tail cuts whole vectors with returns the part after the split position on every path (split_at(..).1, the value split_off returns, skip) - never what split_off / truncate left in place.'
+META["explanation"] += ' Shared with C12: R12.5 (the adapter handed to the next stage keeps its replica: the limit is enforced from it).'
 
 
 def run(ctx):
@@ -56,6 +57,9 @@ def run(ctx):
             _c09.r09_8(ctx, _a)
             _c09.r09_14(ctx, _a)
     groups.util_buffers(ctx)
+    # an adapter handed to the next stage keeps its replica: the PopBack / PopFront that enforce the limit are computed from it
+    from . import c12 as _c12
+    _c12.r12_5(ctx)
 
 
 
